@@ -301,7 +301,7 @@ RESERVED |= set("py_struct_pack py_struct_unpack py_seq_item py_list_item py_opt
                 "py_str_or py_str_mul py_bytes_mul py_encode py_bytes_join py_str_in py_list_of_str py_split py_int_base_o py_fmt_x4 "
                 "py_insert0 py_except_all py_except_value join split fmt_d fmt_x chars length concat firstn skipn nth_error "
                 "py_BYTES_TO_BITS py_backend be py_inet_aton py_inet_pton4 py_inet_pton6 py_inet_ntop6 py_format1 py_split_dc py_contains_dc "
-                "contains_char".split())
+                "contains_char py_sort_asc py_sort_optkey py_ins_asc".split())
 
 
 class Untranslatable(Exception):
@@ -2468,6 +2468,20 @@ def srcc_normalize(f):
             first = ast.Assign(targets=[ast.Name(id=x, ctx=ast.Store())], value=ast.Name(id=item, ctx=ast.Load()))
             n.body.insert(0, ast.fix_missing_locations(ast.copy_location(first, n.body[0])))
 
+    # a comprehension variable (its own scope in Python 3) that is also bound elsewhere in f is renamed inside the comprehension
+    bound = [n.id for n in ast.walk(f) if isinstance(n, ast.Name) and isinstance(n.ctx, ast.Store)] + [a.arg for a in f.args.args]
+    k = 0
+    for comp in sorted((n for n in ast.walk(f) if isinstance(n, ast.ListComp)), key=lambda n: (n.lineno, n.col_offset)):
+        if len(comp.generators) == 1 and isinstance(comp.generators[0].target, ast.Name) and bound.count(comp.generators[0].target.id) > 1:
+            x = comp.generators[0].target.id
+            inner = [n for n in ast.walk(comp) if isinstance(n, ast.ListComp) and n is not comp]
+            if inner or any(isinstance(n, ast.Name) and n.id == x for n in ast.walk(comp.generators[0].iter)):
+                continue
+            k += 1
+            for n in ast.walk(comp):
+                if isinstance(n, ast.Name) and n.id == x:
+                    n.id = "%s__c%d" % (x, k)
+
     def ispop(c):
         return (isinstance(c, ast.Call) and isinstance(c.func, ast.Attribute) and c.func.attr == "pop" and isinstance(c.func.value, ast.Name)
                 and not c.args and not c.keywords)
@@ -2573,7 +2587,30 @@ def srcc_format(self, node, env):
 
 
 def srcc_bound(self, b, env):
-    return "None" if b is None else "(Some %s)" % srcc_pure(self, b, env, "int")[1]
+    """a slice bound: absent, an int, or a None-or-int local (None = absent, as in Python)"""
+    if b is None:
+        return "None"
+    ty, t = self.ex(b, env)
+    if ty == "optint":
+        return t
+    if ty != "int":
+        bad(b, "slice bound of kind %s" % show(ty))
+    return "(Some %s)" % t
+
+
+def srcc_optlocals(self):
+    """the locals of this function that hold None or an int: assigned the literal None somewhere, assigned something else
+    somewhere, and compared with None (`is None` / `is not None`) somewhere; not parameters"""
+    if "srcc_optlocals_" not in self.__dict__:
+        none, other, tested = set(), set(), set()
+        for n in ast.walk(self.f):
+            if isinstance(n, ast.Assign) and len(n.targets) == 1 and isinstance(n.targets[0], ast.Name):
+                (none if isinstance(n.value, ast.Constant) and n.value.value is None else other).add(n.targets[0].id)
+            if (isinstance(n, ast.Compare) and len(n.ops) == 1 and isinstance(n.ops[0], (ast.Is, ast.IsNot)) and isinstance(n.left, ast.Name)
+                    and isinstance(n.comparators[0], ast.Constant) and n.comparators[0].value is None):
+                tested.add(n.left.id)
+        self.srcc_optlocals_ = (none & other & tested) - {a.arg for a in self.f.args.args}
+    return self.srcc_optlocals_
 
 
 def srcc_rhs(self, node, env):
@@ -2605,9 +2642,18 @@ def srcc_rhs(self, node, env):
         return (("list", cell), "(@nil #CELL%d#)" % (len(cells) - 1))
     if isinstance(node, ast.BinOp) and isinstance(node.op, ast.Mod) and isinstance(node.left, ast.Constant) and isinstance(node.left.value, str):
         return srcc_format(self, node, env)
+    if isinstance(node, ast.Tuple) and node.elts and isinstance(node.ctx, ast.Load):
+        items = [self.ex(x, env) for x in node.elts]       # a tuple display of Coq values
+        if any(not is_value(ty) for ty, _ in items):
+            bad(node, "tuple component of kind %s" % [show(ty) for ty, _ in items if not is_value(ty)][0])
+        return (("tup", tuple(ty for ty, _ in items)), tuple_term([t for _, t in items]))
     if isinstance(node, ast.BinOp) and isinstance(node.op, (ast.Add, ast.Mult)):
         snap, pre0 = self.snapshot(), list(self.pre)
         (ta, a), (tb, b) = self.ex(node.left, env), self.ex(node.right, env)
+        if isinstance(node.op, ast.Add) and isinstance(ta, str) and isinstance(tb, str) and {ta, tb} == {"int", "optint"}:
+            h = self.fresh()                                # None + int is a TypeError
+            self.hoist(node, ("bind", h, "(match %s with Some h0 => Ok h0 | None => Raise TypeError end)" % (a if ta == "optint" else b)))
+            return ("int", "(%s + %s)" % ((h, b) if ta == "optint" else (a, h)))
         if isinstance(node.op, ast.Add) and ta == tb and ta in ("str", "bytes"):
             return (ta, "(String.append %s %s)" % (a, b) if ta == "str" else "(%s ++ %s)" % (a, b))
         if isinstance(node.op, ast.Mult) and ta in ("str", "bytes") and tb == "int":
@@ -3183,6 +3229,34 @@ def srcc_stmt(self, s, rest, env, k, after):
         # try: <assignments, if, raise, loops without return / break / continue> / except E1: raise E2: as try_except; the loops
         # are Fixpoints called inside the protected body
         return srcc_try_except(self, s, rest, env, k, after)
+    if (isinstance(s, ast.Assign) and len(s.targets) == 1 and isinstance(s.targets[0], ast.Name)
+            and s.targets[0].id in srcc_optlocals(self)):
+        x = s.targets[0].id                                 # a local that holds None or an int: option Z
+        if isinstance(s.value, ast.Constant) and s.value.value is None:
+            term, pre = "None", []
+        else:
+            term = "(Some %s)" % self.int_(s.value, env)
+            pre = self.take_pre()
+        cn, env = self.bind_local(s.targets[0], x, "optint", env, s.value)
+        return self.wrap(pre, ("let", cn, term, go(env)))
+    if (isinstance(s, ast.Expr) and isinstance(s.value, ast.Call) and isinstance(s.value.func, ast.Attribute) and s.value.func.attr == "sort"
+            and isinstance(s.value.func.value, ast.Name) and is_list(env.get(s.value.func.value.id, ("",))[0]) and not s.value.args
+            and [k.arg for k in s.value.keywords] == ["key"] and isinstance(s.value.keywords[0].value, ast.Lambda)):
+        # l.sort(key=lambda x: e): stable, ascending; a None-or-int key raises TypeError as soon as two items are compared
+        l, lam = s.value.func.value.id, s.value.keywords[0].value
+        lty, lt = env[l]
+        elem = lty[1].find().t
+        if (elem is None or len(lam.args.args) != 1 or lam.args.defaults or lam.args.vararg or lam.args.kwarg or lam.args.kwonlyargs
+                or lam.args.posonlyargs or lam.args.args[0].arg in env):
+            bad(s, "sort() key other than lambda x: <expression> with a fresh x")
+        xcn, lenv = self.bind_local(lam, lam.args.args[0].arg, elem, env, s.value.func.value)
+        kty, kt = srcc_pure(self, lam.body, lenv)
+        if kty not in ("int", "optint"):
+            bad(s, "sort() key of kind %s" % show(kty))
+        cn, env = self.bind_local(s, l, lty, env)
+        if kty == "int":
+            return ("let", cn, "(py_sort_asc (fun %s => %s) %s)" % (xcn, kt, lt), go(env))
+        return ("bind", cn, "(py_sort_optkey (fun %s => %s) %s)" % (xcn, kt, lt), go(env))
     if isinstance(s, ast.Expr) and isinstance(s.value, ast.Call) and isinstance(s.value.func, ast.Attribute) and isinstance(
             s.value.func.value, ast.Name) and is_list(env.get(s.value.func.value.id, ("",))[0]) and not s.value.keywords:
         v, l = s.value, s.value.func.value.id
@@ -3214,7 +3288,7 @@ def srcc_stmt(self, s, rest, env, k, after):
         t = s.test
         if (isinstance(t, ast.Compare) and len(t.ops) == 1 and isinstance(t.ops[0], ast.Is) and isinstance(t.left, ast.Name)
                 and isinstance(t.comparators[0], ast.Constant) and t.comparators[0].value is None
-                and env.get(t.left.id, ("",))[0] in ("optint", "optstr", "optcls6")):
+                and env.get(t.left.id, ("",))[0] in ("optint", "optstr", "optcls6") and t.left.id in [a.arg for a in self.f.args.args]):
             # `if x is None: x = e` for a parameter declared optint / optstr / optcls6: from here on x is an int / text / dialect
             x, a = t.left.id, s.body[0] if len(s.body) == 1 else None
             if not (s.orelse == [] and isinstance(a, ast.Assign) and len(a.targets) == 1 and isinstance(a.targets[0], ast.Name) and a.targets[0].id == x):
